@@ -534,7 +534,7 @@ class Engine:
             return self.mkref(fr, pl)
         if s.startswith('&'):
             return self.mkref(fr, self.parse_place(s[1:]))
-        m = re.match(r'^(.*) as ([\w:<>&\[\] ]+) \((\w+)(\(.*\))?\)$', s)
+        m = re.match(r'^((?:copy|move|const) .*) as (.+) \((\w+)(\(.*\))?\)$', s)
         if m:
             v = self.operand(f, fr, m.group(1))
             return self.cast(v, m.group(2).strip(), m.group(3))
@@ -628,6 +628,8 @@ class Engine:
             return v
         if kind in ('Transmute', 'PtrToPtr'):
             return v
+        if kind == 'IntToInt' and False:
+            pass
         raise Unsupported('cast %s of %r' % (kind, v))
 
     def binop(self, op, a, b):
